@@ -1,6 +1,6 @@
 #!/bin/bash
 # Self-test (not a registered check): apply every seeded change to /repo, run the check of its property, revert; write seeded/RESULTS.txt
-cd /verif
+cd $(dirname $0)/..
 out=${OUT:-seeded/RESULTS.txt}; : > $out.tmp
 LIST=${@:-seeded/C*-*}
 for d in $LIST; do
